@@ -1,54 +1,64 @@
 #!/usr/bin/env python3
-"""Confirm a seeded change and run the checks against it.
-usage: seed_eval.py <name> <property> <dir with mutant.patch and demo.patch> [--needs "text"] [--no-check]
-1. fresh worktree of /repo HEAD: mutant applied -> whole existing suite must pass
-2. + demo applied -> suite must FAIL; mutant reverted, demo kept -> suite must PASS
-3. mutant applied to /repo itself -> ./check <property> (quick) -> undo
-Everything is recorded in /verif/seeded/<name>/{patch.diff,demo.patch,meta.json}."""
+"""Confirm a seeded change and run the checks against it -- entirely on private copies (never touches /repo).
+usage: seed_eval.py <name> <property> [--needs "text"] [--tier quick|thorough] [--no-confirm]
+expects /verif/seeded/<name>/{patch.diff,demo.patch}
+1. copy of /repo HEAD: change applied -> whole existing suite must pass
+2. + demonstration applied -> suite must FAIL; change reverted, demonstration kept -> suite must PASS
+3. copy of /repo HEAD with the change: VERIF_REPO=<copy> ./check <property> -> records exit code, VIOLATION lines
+Results -> /verif/seeded/<name>/meta.json (or $SEED_OUT/<name>.json when SEED_OUT is set)."""
 import json, os, shutil, subprocess, sys, time
-name, prop, src = sys.argv[1], sys.argv[2], sys.argv[3]
-needs = sys.argv[sys.argv.index("--needs") + 1] if "--needs" in sys.argv else ""
-out = "/verif/seeded/" + name
-os.makedirs(out, exist_ok=True)
-shutil.copy(os.path.join(src, "mutant.patch"), os.path.join(out, "patch.diff"))
-shutil.copy(os.path.join(src, "demo.patch"), os.path.join(out, "demo.patch"))
-def sh(cmd, cwd=None, timeout=3600):
-    p = subprocess.run(cmd, shell=True, cwd=cwd, capture_output=True, text=True, timeout=timeout)
+name, prop = sys.argv[1], sys.argv[2]
+needs = sys.argv[sys.argv.index("--needs") + 1] if "--needs" in sys.argv else None
+tier = sys.argv[sys.argv.index("--tier") + 1] if "--tier" in sys.argv else "quick"
+VERIF = os.path.dirname(os.path.dirname(os.path.abspath(__file__)))
+sdir = os.path.join(VERIF, "seeded", name)
+def sh(cmd, cwd=None, timeout=7200, env=None):
+    e = dict(os.environ); e.update(env or {})
+    p = subprocess.run(cmd, shell=True, cwd=cwd, capture_output=True, text=True, timeout=timeout, env=e)
     return p.returncode, p.stdout + p.stderr
-wt = "/tmp/seedchk/" + name
-sh("git -C /repo worktree remove --force %s" % wt)
-os.makedirs("/tmp/seedchk", exist_ok=True)
-rc, o = sh("git -C /repo worktree add -q --detach %s HEAD" % wt); assert rc == 0, o
-meta = {"name": name, "property": prop, "needs_to_manifest": needs, "repo_head": sh("git -C /repo rev-parse --short HEAD")[1].strip(), "ran": []}
-def suite(label):
-    t = time.time()
-    rc, o = sh("cargo test --workspace --offline --no-fail-fast 2>&1 | grep -E 'test result|FAILED|panicked|error(\\[|:)' | head -40", cwd=wt)
-    failed = ("FAILED" in o) or ("error" in o and "test result" not in o)
-    passed_counts = [l for l in o.split("\n") if l.startswith("test result")]
-    meta["ran"].append({"step": label, "cmd": "cargo test --workspace --offline --no-fail-fast", "failed": failed, "summary": passed_counts[:12], "wall_s": round(time.time() - t)})
-    return failed, o
-rc, o = sh("git apply %s/patch.diff" % out, cwd=wt); assert rc == 0, "mutant does not apply: " + o
-f1, o1 = suite("existing suite with the change")
-rc, o = sh("git apply %s/demo.patch" % out, cwd=wt); assert rc == 0, "demo does not apply: " + o
-f2, o2 = suite("existing suite + demonstration, with the change")
-rc, o = sh("git apply -R %s/patch.diff" % out, cwd=wt); assert rc == 0, o
-f3, o3 = suite("existing suite + demonstration, without the change")
-meta["confirmed"] = (not f1) and f2 and (not f3)
-meta["confirm_detail"] = {"suite_passes_with_change": not f1, "demo_fails_with_change": f2, "demo_passes_without_change": not f3}
-if f2:
-    meta["demo_failure_excerpt"] = [l for l in o2.split("\n") if "panicked" in l or "FAILED" in l][:6]
-sh("git -C /repo worktree remove --force %s" % wt)
-if "--no-check" not in sys.argv and meta["confirmed"]:
-    assert sh("git -C /repo status --porcelain")[1].strip() == "", "/repo not clean"
-    rc, o = sh("git -C /repo apply %s/patch.diff" % out); assert rc == 0, o
-    try:
+base = "/tmp/seedchk-%d/%s" % (os.getpid(), name)
+shutil.rmtree(base, ignore_errors=True); os.makedirs(base)
+def fresh(dst):
+    rc, o = sh("git -C /repo archive HEAD | tar -x -C %s" % dst) if os.makedirs(dst, exist_ok=True) is None else (1, "")
+    assert rc == 0, o
+metap = os.path.join(sdir, "meta.json")
+meta = json.load(open(metap)) if os.path.exists(metap) else {"name": name, "property": prop}
+if needs: meta["needs_to_manifest"] = needs
+meta["repo_head"] = sh("git -C /repo rev-parse --short HEAD")[1].strip()
+try:
+    if "--no-confirm" not in sys.argv:
+        wt = base + "/confirm"; fresh(wt); meta["ran"] = []
+        def suite(label):
+            t = time.time()
+            rc, o = sh("cargo test --workspace --offline --no-fail-fast 2>&1 | grep -E 'test result|FAILED|panicked|error(\\[|:)' | head -40", cwd=wt)
+            failed = ("FAILED" in o) or ("error" in o and "test result" not in o)
+            meta["ran"].append({"step": label, "cmd": "cargo test --workspace --offline --no-fail-fast", "failed": failed,
+                                "summary": [l for l in o.split("\n") if l.startswith("test result")][:12], "wall_s": round(time.time() - t)})
+            return failed, o
+        rc, o = sh("git apply %s/patch.diff" % sdir, cwd=wt); assert rc == 0, "change does not apply: " + o
+        f1, o1 = suite("existing suite with the change")
+        rc, o = sh("git apply %s/demo.patch" % sdir, cwd=wt); assert rc == 0, "demonstration does not apply: " + o
+        f2, o2 = suite("existing suite + demonstration, with the change")
+        rc, o = sh("git apply -R %s/patch.diff" % sdir, cwd=wt); assert rc == 0, o
+        f3, o3 = suite("existing suite + demonstration, without the change")
+        meta["confirmed"] = (not f1) and f2 and (not f3)
+        meta["confirm_detail"] = {"suite_passes_with_change": not f1, "demo_fails_with_change": f2, "demo_passes_without_change": not f3}
+        if f2: meta["demo_failure_excerpt"] = [l for l in o2.split("\n") if "panicked" in l or "FAILED" in l][:6]
+        shutil.rmtree(wt, ignore_errors=True)
+    if meta.get("confirmed"):
+        rp = base + "/repo"; fresh(rp)
+        rc, o = sh("git apply %s/patch.diff" % sdir, cwd=rp); assert rc == 0, o
         t = time.time()
-        rc, o = sh("./check %s --tier quick" % prop, cwd="/verif", timeout=7200)
-        meta["check"] = {"cmd": "./check %s --tier quick" % prop, "exit": rc, "wall_s": round(time.time() - t),
-                         "violation_lines": [l for l in o.split("\n") if l.startswith("VIOLATION")],
-                         "non_discharged": [l[:300] for l in o.split("\n") if l.startswith(("violated", "undecided", "UNDECIDED"))][:12]}
-        meta["caught"] = rc == 1
-    finally:
-        sh("git -C /repo checkout -- . && git -C /repo clean -fdq")
-json.dump(meta, open(os.path.join(out, "meta.json"), "w"), indent=1)
-print(json.dumps(meta, indent=1))
+        rc, o = sh("./check %s --tier %s" % (prop, tier), cwd=VERIF, env={"VERIF_REPO": rp, "VERIF_LOGTAG": "-seed-" + name})
+        key = "check" if tier == "quick" else "check_thorough"
+        meta[key] = {"cmd": "VERIF_REPO=<copy of /repo HEAD + patch.diff> ./check %s --tier %s" % (prop, tier), "exit": rc,
+                     "wall_s": round(time.time() - t), "verif_commit": sh("git -C %s rev-parse --short HEAD" % VERIF)[1].strip(),
+                     "violation_lines": [l for l in o.split("\n") if l.startswith("VIOLATION")],
+                     "non_discharged": [l[:400] for l in o.split("\n") if l.startswith(("violated", "undecided", "UNDECIDED"))][:12]}
+        if tier == "quick": meta["caught"] = rc == 1
+        else: meta["caught_thorough"] = rc == 1
+finally:
+    shutil.rmtree(base, ignore_errors=True)
+outp = os.path.join(os.environ["SEED_OUT"], name + ".json") if os.environ.get("SEED_OUT") else metap
+json.dump(meta, open(outp, "w"), indent=1)
+print(json.dumps({k: meta.get(k) for k in ("name", "confirmed", "caught", "caught_thorough")}))
